@@ -4,6 +4,8 @@ pub enum FsOp {
     Create(Seq<char>),
     CopyInto(Seq<char>),
     Rename(Seq<char>, Seq<char>),
+    /// fs::remove_dir_all: the directory and everything below it
+    RemoveTree(Seq<char>),
 }
 impl FsOp {
     /// does this operation name path p as the thing it creates, overwrites, replaces or removes
@@ -13,6 +15,7 @@ impl FsOp {
             FsOp::Create(a) => a == p,
             FsOp::CopyInto(a) => a == p,
             FsOp::Rename(a, b) => a == p || b == p,
+            FsOp::RemoveTree(a) => a == p,
         }
     }
 }
@@ -111,6 +114,8 @@ pub uninterp spec fn stat_of(fw: &FsWorld, p: Seq<char>) -> Option<Metadata>;
 #[verifier::external_body]
 pub fn try_stat<P: PathLike>(p: &P, Tracked(fw): Tracked<&FsWorld>) -> (r: io::Result<Option<Metadata>>)
     ensures fw.no_faults ==> r is Ok, r matches Ok(m) ==> m == stat_of(fw, p.pview()) && (m is Some) == fw.is_there(p.pview()),
+        // a directory is a directory entry: what is not there is no directory, and lstat tells which it is
+        r matches Ok(None) ==> !fw.dirs.contains(p.pview()), r matches Ok(Some(md)) ==> md.spec_is_dir() == fw.dirs.contains(p.pview()),
 { unimplemented!() }
 pub mod helpers {
     use super::*;
@@ -120,13 +125,25 @@ pub mod helpers {
         ensures
             final(fw).no_faults == old(fw).no_faults, final(fw).content == old(fw).content, final(fw).dirs == old(fw).dirs,
             final(fw).trace == old(fw).trace.push(FsOp::Unlink(p.pview())),
-            old(fw).no_faults ==> (r is Ok || (old(fw).dirs.contains(p.pview()) && (r == Err::<(), Errno>(Errno::EISDIR) || r == Err::<(), Errno>(Errno::EPERM)))),
+            // unlink(2) refuses a directory (EISDIR on Linux, EPERM elsewhere); anything else goes unless the environment is faulty
+            old(fw).dirs.contains(p.pview()) ==> (r == Err::<(), Errno>(Errno::EISDIR) || r == Err::<(), Errno>(Errno::EPERM)),
+            old(fw).no_faults && !old(fw).dirs.contains(p.pview()) ==> r is Ok,
             r is Ok ==> final(fw).exists == old(fw).exists.insert(p.pview(), false),
             r is Err ==> final(fw).exists == old(fw).exists,
     { unimplemented!() }
 }
 pub mod fs {
     use super::*;
+    /// std::fs::remove_dir_all: removes a directory with its contents.  TRUSTED.
+    #[verifier::external_body]
+    pub fn remove_dir_all<P: PathLike>(p: &P, Tracked(fw): Tracked<&mut FsWorld>) -> (r: io::Result<()>)
+        ensures
+            final(fw).no_faults == old(fw).no_faults, final(fw).content == old(fw).content,
+            final(fw).trace == old(fw).trace.push(FsOp::RemoveTree(p.pview())),
+            old(fw).no_faults && old(fw).dirs.contains(p.pview()) ==> r is Ok,
+            r is Ok ==> final(fw).exists == old(fw).exists.insert(p.pview(), false) && final(fw).dirs == old(fw).dirs.remove(p.pview()),
+            r is Err ==> final(fw).exists == old(fw).exists && final(fw).dirs == old(fw).dirs,
+    { unimplemented!() }
     /// rename(2): atomic replacement of the destination name.  TRUSTED.
     #[verifier::external_body]
     pub fn rename<P: PathLike, Q: PathLike>(src: &P, dst: &Q, Tracked(fw): Tracked<&mut FsWorld>) -> (r: io::Result<()>)
